@@ -130,7 +130,13 @@ def generate(rng, tier):
         if not nodes:
             continue
         exp, lim = None, "def"
-        if fault in ("id", "hier", "over", "size"):
+        if fault == "over" and rng.random() < 0.6:
+            nodes = fix_widths(E.rand_doc(rng, sp, big=False, unknown_p=0.3))
+            r2 = make_overrun(rng, sp, nodes) if nodes else None
+            if r2 is None:
+                continue
+            data, exp = r2[0], "E:over:%d:%x:%d" % (r2[1], r2[2], r2[3])
+        elif fault in ("id", "hier", "over", "size"):
             try:
                 r = inject(rng, sp, nodes, fault)
             except AssertionError:
